@@ -141,6 +141,28 @@ func raceMain(args []string) {
 		fmt.Fprintf(os.Stderr, "phase %s: %v\n", name, time.Since(tPhase))
 		tPhase = time.Now()
 	}
+	// cold start: the very first time the process sees these inputs it sees them concurrently (state that is filled in lazily on
+	// first use - a memo table, a cache - is written here or never); results are compared with the sequential baseline below
+	cold := make([][][]string, *g)
+	{
+		var wg0 sync.WaitGroup
+		for w := 0; w < *g; w++ {
+			w := w
+			cold[w] = make([][]string, nScale)
+			wg0.Add(1)
+			lr := rand.New(rand.NewSource(*seed*7919 + int64(w)))
+			go func() {
+				defer wg0.Done()
+				for _, i := range lr.Perm(nScale) {
+					if i%(*g) == w%4 || i%7 == w%7 { // each case on a few goroutines
+						cold[w][i] = runAll(cases[i], shared[i])
+					}
+				}
+			}()
+		}
+		wg0.Wait()
+	}
+	phase("cold-start")
 	// sequential baseline
 	base := make([][]string, len(cases))
 	for i, c := range cases {
@@ -160,6 +182,15 @@ func raceMain(args []string) {
 			mism = append(mism, fmt.Sprintf("%s case=%d query=%.300q (%d bytes) df=%q field=%d got=%.200s want=%.200s", kind, i, cases[i].q, len(cases[i].q), cases[i].df, k, got, want))
 		}
 		mu.Unlock()
+	}
+	for w := range cold {
+		for i, r := range cold[w] {
+			for k := range r {
+				if r[k] != base[i][k] {
+					report("concurrent-first-use-differs", i, k, r[k], base[i][k])
+				}
+			}
+		}
 	}
 	order := rng.Perm(len(cases))
 	for _, i := range order {
